@@ -101,8 +101,6 @@ StreamStep(T, op, ob) ==
         m |-> [m EXCEPT ![s] = got], cnt |-> [cnt EXCEPT ![s] = c1]]
 
 \* ---- t-digest monitor -------------------------------------------------------
-FirstBad(P(_), n) == IF \E i \in 1..n : ~P(i) THEN CHOOSE i \in 1..n : ~P(i) /\ \A j \in 1..(i - 1) : P(j) ELSE 0
-
 TdStep(T) ==
     LET prop == IF ~TdWithin(T.vs, T.lo, T.hi, T.tol) THEN "PROP:td_outside_min_max"
                 ELSE IF ~TdMonotone(T.vs, T.tol) THEN "PROP:td_not_monotone"
